@@ -16,6 +16,16 @@ pub fn gen(seed: u64, tier: Tier) -> ScenarioSpec {
     let mut rng = Rng::new(seed);
     let cfg = GenCfg { allow_large: tier == Tier::Thorough, min_frames: 1, ..Default::default() };
     let rec = gen::gen_recorder(&mut rng, &cfg);
+    let mut rec = rec;
+    // rare: more than 65 536 item rows in one game (the flat item columns are indexed by row)
+    if crate::layout::gte((rec.version[0], rec.version[1]), (3, 0)) && rng.chance(1, if tier == Tier::Thorough { 1500 } else { 3000 }) {
+        let n = 2300 + rng.usize_below(400);
+        let present = rec.frames.first().map_or(0b01, |f| f.present);
+        let pseed = rng.next_u64();
+        rec.frames = (0..n).map(|k| FrameSpec { id: -123 + k as i32, present, items: 28 + (k % 5) as u16, pseed: crate::prng::mix(pseed, k as u64) }).collect();
+        rec.gecko = None;
+        rec.extras = Extras::default();
+    }
     let len = gen::approx_len(&rec);
     let live = rng.chance(1, 2);
     let mut spec = gen::base_spec(P, if live { "S2" } else { "S1" }, seed, rec);
